@@ -37,6 +37,11 @@ fn main() {
             e.set_pairs::<Track, 3, 3>(4);
             e.set_pairs::<Copyf, 4, 5>(4);
         }
+        if e.cx.shard.0 == 0 && e.cx.only_hist.is_none() {
+            e.zst_pairs::<2, 2>();
+            e.zst_pairs::<1, 3>();
+            e.zst_pairs::<3, 0>();
+        }
         e.cx.rep.exhaustive = e.cx.only_hist.is_none();
         if random > 0 {
             e.random_histories::<Track, 4, 4>(random / 4);
